@@ -410,9 +410,9 @@ def run(ctx):
                             f.write(line if line.endswith("\n") else line + "\n")
             runs.append(dict(sub="corpus", replay=cf))
         if quick:
-            runs.append(dict(sub="fresh", n=300, nm=30, nm0=40, nb=8, ne=6, nes=1, engines="mem"))
+            runs.append(dict(sub="fresh", n=260, nm=20, nm0=30, nb=8, ne=6, nes=1, engines="mem"))
         else:
-            runs.append(dict(sub="fresh", n=4000, nm=300, nm0=400, nb=110, ne=50, nes=8, engines="mem,pebble,rocksdb"))
+            runs.append(dict(sub="fresh", n=3600, nm=250, nm0=350, nb=100, ne=50, nes=8, engines="mem,pebble,rocksdb"))
             runs.append(dict(sub="fresh-pebble-live", n=0, nb=30, ne=15, engines="pebble"))
 
     all_mism, all_fail, total, evals, hist_all, samples, distinct = [], [], 0, 0, {}, [], set()
